@@ -769,8 +769,15 @@ fn x_c07(r: &DuoRun, _wm: &WireModel, ei: &EndInfo, o: &mut Outcome) {
         let same_key = plan.streams.iter().enumerate().filter(|(u, x)| x.opener.min(1) == me && x.host(*u) == key.1 && x.port == key.2).count();
         match &s.open_ret {
             Some((_, Ok(()))) => {
-                if s.sides[1].got_stream.is_none() {
-                    o.violate("C07:no-matching-accept", format!("stream {t}: new_stream_channel succeeded at endpoint {me} but the peer application never received a stream with the requested host ({} bytes) and port {}", key.1.len(), key.2));
+                // requests with identical (host, port) from one endpoint are interchangeable: compare counts
+                let group: Vec<usize> = plan.streams.iter().enumerate().filter(|(u, x)| x.opener.min(1) == me && x.host(*u) == key.1 && x.port == key.2).map(|(u, _)| u).collect();
+                let ok_opens = group.iter().filter(|u| matches!(led.streams[**u].open_ret, Some((_, Ok(()))))).count();
+                let accepts = group.iter().filter(|u| led.streams[**u].sides[1].got_stream.is_some()).count();
+                if accepts < ok_opens {
+                    o.violate("C07:no-matching-accept", format!("stream {t}: {ok_opens} new_stream_channel call(s) for host ({} bytes) / port {} succeeded at endpoint {me} but the peer application received only {accepts} such stream(s)", key.1.len(), key.2));
+                }
+                if accepts > ok_opens {
+                    o.violate("C07:rejected-but-accepted", format!("stream {t}: the peer application received {accepts} streams for host ({} bytes) / port {} but only {ok_opens} request(s) succeeded", key.1.len(), key.2));
                 }
                 o.probe("open-succeeded", 1);
                 if tries > 1 && same_key == 1 {
@@ -782,7 +789,7 @@ fn x_c07(r: &DuoRun, _wm: &WireModel, ei: &EndInfo, o: &mut Outcome) {
                 if same_key == 1 && tries != plan.eps[me].retries {
                     o.violate("C07:retry-count", format!("stream {t}: FlowIdRejected after {tries} Connect frames, max_flow_id_retries = {}", plan.eps[me].retries));
                 }
-                if s.sides[1].got_stream.is_some() {
+                if same_key == 1 && s.sides[1].got_stream.is_some() {
                     o.violate("C07:rejected-but-accepted", format!("stream {t}: the requester got FlowIdRejected but the peer application received a stream for it"));
                 }
             }
@@ -798,7 +805,7 @@ fn x_c07(r: &DuoRun, _wm: &WireModel, ei: &EndInfo, o: &mut Outcome) {
         }
         // initial send credit = the window the other side advertised (behavioural): exactly that many
         // one-byte writes complete against a peer that never reads
-        if matches!(s.open_ret, Some((_, Ok(())))) && s.sides[1].got_stream.is_some() {
+        if same_key == 1 && matches!(s.open_ret, Some((_, Ok(())))) && s.sides[1].got_stream.is_some() {
             for side in 0..2 {
                 let ep = if side == 0 { me } else { 1 - me };
                 let done = s.sides[side].writes.iter().filter(|w| matches!(w.res, Some(Ok(1)))).count() as u32;
